@@ -42,7 +42,7 @@ class Ctx:
         self.ret_ty = None
     def gensym(self, base="t"):
         self.fresh += 1
-        return f"{base}__{self.fresh}"
+        return f"{base}_x{self.fresh}"
     def use_const(self, c):
         if c not in self.consts_used:
             self.consts_used.append(c)
@@ -1017,3 +1017,44 @@ def translate_const(unit, qual, out_name):
         nty = "usize"
     term, t2 = tr.pure(e, cx, nty)
     return GenDef(out_name, list(cx.consts_used), [], nty or t2, term, src_hash(toks), f"{unit.path}: const {qual}", [])
+
+
+def rehash_guard_fact(unit):
+    """Emit `rehash_guard_unconditional : bool` from the token structure of the guard closure in
+    RawTableInner::rehash_in_place: true iff the `for i in 0..buckets` loop is NOT nested inside
+    `if let Some(drop) = drop`."""
+    it = unit.idx["fns"].get("RawTableInner::rehash_in_place")
+    if it is None:
+        raise Unsupported("rehash_in_place not found")
+    toks = it.body_toks
+    # find `guard ( self , move | self_ | {`
+    start = None
+    for i, t in enumerate(toks):
+        if t.v == "guard" and toks[i + 1].v == "(":
+            start = i + 1
+            break
+    if start is None:
+        raise Unsupported("guard(...) call not found in rehash_in_place")
+    end = match_close(toks, start)
+    inner = toks[start:end]
+    # the closure body
+    bi = next(i for i, t in enumerate(inner) if t.v == "{")
+    be = match_close(inner, bi)
+    body = inner[bi + 1:be]
+    depth = 0
+    for_depth = None
+    iflet_depth = None
+    for i, t in enumerate(body):
+        if t.v == "{":
+            depth += 1
+        elif t.v == "}":
+            depth -= 1
+        elif t.v == "for" and for_depth is None:
+            for_depth = (depth, i)
+        elif t.v == "if" and body[i + 1].v == "let" and iflet_depth is None and any(x.v == "drop" for x in body[i:i + 10]):
+            iflet_depth = (depth, i)
+    if for_depth is None:
+        raise Unsupported("no for-loop in the rehash guard")
+    uncond = iflet_depth is None or for_depth[1] < iflet_depth[1]
+    return GenDef("rehash_guard_unconditional", [], [], "bool", "true" if uncond else "false",
+                  src_hash(inner), "raw/mod.rs: RawTableInner::rehash_in_place [structure of the unwind guard]", [])
